@@ -1,11 +1,36 @@
 import Mimic.Control
+import Mimic.Framing
 /-! Line-protocol driver pieces: one `handle` per domain. Unknown input is answered `bad-op`, never defaulted. -/
 namespace Mimic.Drv
 
 def words (s : String) : List String := (s.splitOn " ").filter (· ≠ "")
 
+def hexVal (c : Char) : Option Nat :=
+  if '0' ≤ c ∧ c ≤ '9' then some (c.toNat - '0'.toNat)
+  else if 'a' ≤ c ∧ c ≤ 'f' then some (c.toNat - 'a'.toNat + 10)
+  else none
+
+def unhexAux : List Char → List UInt8 → Option (List UInt8)
+  | [], acc => some acc.reverse
+  | [_], _ => none
+  | a :: b :: rest, acc => match hexVal a, hexVal b with
+    | some x, some y => unhexAux rest (UInt8.ofNat (16 * x + y) :: acc)
+    | _, _ => none
+
+/-- `-` is the empty byte string -/
+def unhex (s : String) : Option (List UInt8) := if s = "-" then some [] else unhexAux s.toList []
+
+def hexDigit (n : Nat) : Char := if n < 10 then Char.ofNat (n + 48) else Char.ofNat (n + 87)
+
+def hex (b : List UInt8) : String :=
+  if b.isEmpty then "-" else String.ofList (b.flatMap (fun x => [hexDigit (x.toNat / 16), hexDigit (x.toNat % 16)]))
+
 structure St where
   ctl : Mimic.Control.Ctl := Mimic.Control.mk 0
+  frmM : Nat := Mimic.Framing.M
+  frm : Mimic.Framing.St := Mimic.Framing.init 0
+  wr : Mimic.Framing.WSt := { pending := [], seq := 0, sent := [] }
+  wrB : Nat := 32768
 
 def ctl (st : St) : List String → St × String
   | ["new", sid] => match sid.toNat? with
@@ -25,11 +50,72 @@ def ctl (st : St) : List String → St × String
       | some n => (st, if Mimic.Control.finds st.ctl n then "1" else "0")
       | none => (st, "bad-op")
   | ["len"] => (st, toString st.ctl.live.length)
+  | ["live"] => (st, " ".intercalate ((st.ctl.live.mergeSort (· ≤ ·)).map toString))
+  | _ => (st, "bad-op")
+
+def showEv : Mimic.Framing.Ev → String
+  | .msg p => "msg:" ++ hex p
+  | .seqError g e => s!"seqerr:{g}:{e}"
+
+def showEvs (es : List Mimic.Framing.Ev) : String :=
+  if es.isEmpty then "-" else ",".intercalate (es.map showEv)
+
+def frm (st : St) : List String → St × String
+  | ["m", m] => match m.toNat? with
+      | some n => ({ st with frmM := n }, "ok")
+      | none => (st, "bad-op")
+  | ["mdefault"] => ({ st with frmM := Mimic.Framing.M }, "ok")
+  | ["reset", e] => match e.toNat? with
+      | some n => ({ st with frm := Mimic.Framing.init n }, "ok")
+      | none => (st, "bad-op")
+  | ["feed", h] => match unhex h with
+      | some b => let r := Mimic.Framing.feed st.frmM st.frm b; ({ st with frm := r.1 }, showEvs r.2)
+      | none => (st, "bad-op")
+  | ["state"] => (st, s!"{st.frm.buf.length} {st.frm.acc.length} {st.frm.expect} {st.frm.hdr} {st.frm.dead}")
+  | ["split", s, h] => match s.toNat?, unhex h with
+      | some s, some b =>
+          (st, ",".intercalate ((Mimic.Framing.split st.frmM s b).map (fun qc => s!"{qc.1}:{hex qc.2}")))
+      | _, _ => (st, "bad-op")
+  | ["splitlens", s, len] => match s.toNat?, len.toNat? with
+      | some s, some len =>
+          (st, ",".intercalate ((Mimic.Framing.splitLens st.frmM s len).map (fun ql => s!"{ql.1}:{ql.2}")))
+      | _, _ => (st, "bad-op")
+  | _ => (st, "bad-op")
+
+/-- transport writes are reported as `len:first-bytes..last-bytes` to keep lines short; the harness applies the
+    same canonicalisation to what the real transport received -/
+def showChunk (b : List UInt8) : String :=
+  s!"{b.length}:{hex (b.take 12)}:{hex (b.drop (b.length - 6))}"
+
+def wr (st : St) : List String → St × String
+  | ["reset", q, b] => match q.toNat?, b.toNat? with
+      | some q, some b => ({ st with wr := { pending := [], seq := q % 256, sent := [] }, wrB := b }, "ok")
+      | _, _ => (st, "bad-op")
+  | ["write", d, h] => match unhex h with
+      | some p =>
+          let before := st.wr.sent.length
+          let w := Mimic.Framing.wwrite st.frmM st.wrB st.wr p (d == "1")
+          ({ st with wr := w },
+           s!"{w.pending.length} {w.seq} " ++ ",".intercalate ((w.sent.drop before).map showChunk))
+      | none => (st, "bad-op")
+  | ["zeros", d, n] => match n.toNat? with   -- a payload of n zero bytes (large sizes without a hex line)
+      | some n =>
+          let before := st.wr.sent.length
+          let w := Mimic.Framing.wwrite st.frmM st.wrB st.wr (List.replicate n 0) (d == "1")
+          ({ st with wr := w },
+           s!"{w.pending.length} {w.seq} " ++ ",".intercalate ((w.sent.drop before).map showChunk))
+      | none => (st, "bad-op")
+  | ["drain"] =>
+      let before := st.wr.sent.length
+      let w := Mimic.Framing.flush st.wr
+      ({ st with wr := w }, s!"{w.pending.length} {w.seq} " ++ ",".intercalate ((w.sent.drop before).map showChunk))
   | _ => (st, "bad-op")
 
 def handle (st : St) (line : String) : St × String :=
   match words line with
   | "ctl" :: rest => ctl st rest
+  | "frm" :: rest => frm st rest
+  | "wr" :: rest => wr st rest
   | _ => (st, "bad-op")
 
 end Mimic.Drv
